@@ -102,6 +102,10 @@ func (g *gen) instr(b *ssa.BasicBlock, idx int, ins ssa.Instruction) {
 		ref := g.newAlloc("alloc_" + ins.Name())
 		g.zeroInit(ref, pt)
 		v := Val{T: ref, Sort: "Int", Typ: ins.Type()}
+		if st, ok := structOf(pt); ok && structLocalPrivate(ins) {
+			// a struct-typed local whose address never leaves this function: calls cannot change its fields
+			g.addStableStruct(ref, pt, st, 0)
+		}
 		if _, ok := structOf(pt); !ok {
 			if _, isArr := pt.Underlying().(*types.Array); !isArr {
 				v.Place = &Place{Kind: plCell, Ref: ref, Elem: pt}
@@ -1053,4 +1057,48 @@ func storedOnceAtEntry(a *ssa.Alloc) bool {
 		}
 	}
 	return n <= 1
+}
+
+
+// structLocalPrivate: every use of the struct-typed local is a field address that is loaded from or stored to, a load or a
+// store of the whole value; its address is never passed on.
+func structLocalPrivate(a *ssa.Alloc) bool {
+	var okAddr func(v ssa.Value, depth int) bool
+	okAddr = func(v ssa.Value, depth int) bool {
+		if depth > 4 || v.Referrers() == nil {
+			return false
+		}
+		for _, r := range *v.Referrers() {
+			switch r := r.(type) {
+			case *ssa.FieldAddr:
+				if r.X != v || !okAddr(r, depth+1) {
+					return false
+				}
+			case *ssa.UnOp, *ssa.DebugRef:
+			case *ssa.Store:
+				if r.Val == v {
+					return false
+				}
+			default:
+				return false
+			}
+		}
+		return true
+	}
+	return okAddr(a, 0)
+}
+
+func (g *gen) addStableStruct(ref string, t types.Type, st *types.Struct, depth int) {
+	if depth > 2 {
+		return
+	}
+	name := g.st.structName(t)
+	for i := 0; i < st.NumFields(); i++ {
+		f := st.Field(i)
+		if inner, ok := structOf(f.Type()); ok {
+			g.addStableStruct(g.emb(name, f.Name(), ref), f.Type(), inner, depth+1)
+			continue
+		}
+		g.stableCells = append(g.stableCells, stableCell{ref: ref, key: fieldKey(name, f.Name())})
+	}
 }
